@@ -218,11 +218,16 @@ def classify_impl(kind, val):
     return ('other', msg)
 
 
+TIMEOUTS = [0]
+
+
 def run_impl(fn):
     import common
     try:
-        return 'out', common.with_alarm(fn, 5)
+        # after a few calls that did not return, the following ones get a short leash (a looping library would otherwise stall the whole check)
+        return 'out', common.with_alarm(fn, 5 if TIMEOUTS[0] < 3 else 0.5)
     except common.Timeout:
+        TIMEOUTS[0] += 1
         return 'err', [False, 'Timeout', 'the call did not return within 5 s (a terminating call takes milliseconds)']
     except Exception as e:      # noqa
         return 'err', [isinstance(e, __import__('mitxgraders').exceptions.MITxError), type(e).__name__, str(e)]
@@ -318,7 +323,7 @@ def part_varlist(ctx):
         for h in heads + ['B', 'cat', 'zz']:
             for idx in ['1', '12', '0', '-3', '05', '-0', '-05', '007', '1.5', '+1', '']:
                 cand.append('%s_{%s}' % (h, idx))
-        used_names = rng.sample(cand, rng.randint(1, 4)) + rng.sample(plain, min(len(plain), 1))
+        used_names = rng.sample(cand, rng.randint(1, 4)) + list(plain) + [h for h in heads if rng.random() < 0.3]
         # only syntactically valid names can appear in a parsed expression
         expr = ' + '.join(used_names)
         try:
@@ -354,6 +359,9 @@ def part_varlist(ctx):
         want = sorted(v for v in used if v not in base and ref_head(v))
         if vl[:len(base)] != base or sorted(added) != want:
             ctx.violation('numbered instances added to the variable list %r, expected %r' % (sorted(added), want), case, impl=vl)
+        for v in base:
+            if sf.get(v) is not g.config['sample_from'][v]:
+                ctx.violation('declared variable %s is no longer sampled from its own sampling set' % v, case)
         for v in added:
             h = ref_head(v)
             if h is not None and sf.get(v) is not g.config['sample_from'][h]:
